@@ -28,6 +28,15 @@ PatDump ==
                                 apply  |-> {ApplyRec(p, m) : m \in CompleteMaps(p) \cup IncompleteMaps(p)},
                                 uris   |-> {UriRec(p, u) : u \in WellFormedUris(p)}])>>)
 
+\* a text that repeats a parameter name: the specification expects ParseError.  The URIs are what the check
+\* module submits to the laws should the real parser accept the text.
+BadDump ==
+    (built = "parse-error") =>
+        LET p == routes[1] IN
+        PrintT(<<"BAD", ToJson([p     |-> p,
+                                names |-> NameSeq(p),
+                                uris  |-> {u \in {CanonDistinct(p), Canon(p, "v")} : UriLegal(u)}])>>)
+
 TabUri(rs, u) == [u |-> u, all |-> Matching(rs, u), first |-> FirstMatch(rs, u)]
 
 TabDump ==
